@@ -117,9 +117,11 @@ impl Ctx {
         }
     }
     pub fn check(&mut self) {
+        crate::simio::progress();
         self.rep.checks += 1;
     }
     pub fn checks(&mut self, n: u64) {
+        crate::simio::progress();
         self.rep.checks += n;
     }
 }
